@@ -26,7 +26,8 @@ META = {
                   "Bounds: map with at most one entry (symbolic address 0..63, instance 0..31, type 0..31).",
     "explanation": "symbolic execution of Command.from_frame / _Event.from_frame / from_event_data / "
                    "_set_event_data / get_type / add_type / retry_decode on symbolic frames",
-    "bounds": ["all 2^23 frames with bit 16 = 0, no map", "device/instance frames x map {absent, one entry "
+    "bounds": ["all ordered pairs of 24 concrete boundary event frames (types 0..7 x information 0/1023/0x155)",
+               "all 2^23 frames with bit 16 = 0, no map", "device/instance frames x map {absent, one entry "
                "with symbolic (short address, instance number, type 0..31)}",
                "map entries created through add_type with int, DeviceShort/InstanceNumber and module arguments",
                "thorough: a second symbolic entry added first (keys may coincide: the later add_type wins)",
